@@ -176,6 +176,8 @@ Section Bytes.
 
   Definition validb : bool := hdr_supported h && tables_ok true && refcounts_exact && copied_single.
   Definition safeb : bool := hdr_supported h && tables_ok false && refcounts_safe.
+  (* validb for an image whose header lists fewer L1 entries than its virtual size needs (before the library extends it) *)
+  Definition validb_short_l1 : bool := hdr_supported h && tables_ok_gen false true && refcounts_exact && copied_single.
   (* the same judgement for an image whose header lists fewer L1 entries than its virtual size needs *)
   Definition safeb_short_l1 : bool := hdr_supported h && tables_ok_gen false false && refcounts_safe.
 
